@@ -23,7 +23,7 @@ import (
 // c16MaxTransitions caps one breadth-first search (the suspended-thread states
 // have thousands of distinct successors at depth 2; depth 3 over the full menu
 // is out of reach for them).
-const c16MaxTransitions = 40000
+const c16MaxTransitions = 12000
 
 type c16Init struct {
 	name   string
